@@ -613,11 +613,10 @@ class VariadicOperandVariable(VariadicVariable, OperandDirective):
         types = parser.parse_optional_undelimited_comma_separated_list(
             parser.parse_optional_type, parser.parse_type
         )
-        ret = types is None
-        if ret:
+        if types is None:
             types = ()
         self.set_types(state, types)
-        return ret
+        return bool(types)
 
     def parse_single_type(self, parser: Parser, state: ParsingState) -> None:
         state.operand_types[self.index] = (parser.parse_type(),)
@@ -660,7 +659,7 @@ class OptionalOperandVariable(OptionalVariable, OperandDirective):
     def parse_types(self, parser: Parser, state: ParsingState) -> bool:
         type = parser.parse_optional_type()
         self.set_types(state, () if type is None else (type,))
-        return type is None
+        return type is not None
 
     def parse_single_type(self, parser: Parser, state: ParsingState) -> None:
         self.set_types(state, (parser.parse_type(),))
@@ -835,7 +834,7 @@ class VariadicResultVariable(VariadicVariable, TypeableDirective):
             parser.parse_optional_type, parser.parse_type
         )
         self.set_types(state, () if types is None else types)
-        return types is None
+        return bool(types)
 
     def parse_single_type(self, parser: Parser, state: ParsingState) -> None:
         state.result_types[self.index] = (parser.parse_type(),)
